@@ -664,8 +664,9 @@ class Engine(StmtMixin):
             for f, ov in fields.items():
                 if f.startswith("$") or (oid, f) in allowed:
                     continue
-                if oid == st.ghost and f == "suspensions":
-                    continue  # engine-maintained counter of suspension points (see suspend_point): every async function may change it
+                if oid == st.ghost and f in ("suspensions", "futures_awaited"):
+                    continue  # event counters (suspension points, awaited futures): every async function may change them; only
+                    #           contracts that speak about one list it in `modifies` (then callers see it havocked)
                 nv = st.heap[oid].get(f)
                 if nv is ov:
                     continue
